@@ -105,6 +105,13 @@ CHECKS = {
         "Reference formulas in mc/refprog.py; junction and transfer targets outside the alphabet.",
         "5/C13",
     ),
+    "C17": (
+        "model_checking",
+        "schedule enumeration: every assignment of samples to forked workers (up to renaming) executed on the real sampling code under a virtual fork pool; fork model validated against a real multiprocessing run and a raw os.fork probe",
+        "multiprocessing.pool.Pool and sc.parallelize are replaced by a virtual pool that reproduces what a forked worker inherits (generator state, pickled task); all set partitions of N <= 5/6 jobs into <= 4 workers are executed for every uncertain-quantity variant, prior generator state and entry point, and every execution is checked for pairwise-distinct samples, untouched sources and equality with the unsampled run when there is no uncertainty.",
+        "The OS scheduler is not controlled; the virtual pool's fork model is bound to reality by two real-pool runs and an os.fork probe per run.",
+        "5/C17",
+    ),
 }
 
 PENDING_REASON = "check not built yet in this session (see DESIGN.md section 8 for the build order); no claim is made"
